@@ -78,6 +78,13 @@ def gen(ctx, tier, rng):
             ic = (1 << 32) - nb + d
             if 0 <= ic < (1 << 32):
                 L.append("stream.chacha20_ietf_xor_ic %s %s %d %s" % (hexs(rb(rng, n)), hexs(rb(rng, 12)), ic, K()))
+    # guard-only probes with lengths no buffer can hold: around 2^38 (= 64 * 2^32) and up to 2^64 - 1
+    for mlen in [(1 << 38) + d for d in (-130, -64, -63, -1, 0, 1, 63, 64, 65)] + [(1 << 39), (1 << 40) + 5, (1 << 63), (1 << 64) - 65, (1 << 64) - 64, (1 << 64) - 63, (1 << 64) - 1]:
+        for ic in (0, 1, 2, 7, (1 << 32) - 1):
+            # only ask where the answer is "misuse" or the probe cannot run long: every case here is beyond a real buffer
+            nb = (mlen + 63) // 64
+            if ic + nb > (1 << 32):     # the property requires refusal
+                L.append("stream.ietf_guard %d %d" % (mlen, ic))
     # cores
     for _ in range(60 if not full else 400):
         c = rng.choice(["N", hexs(rb(rng, 16))])
